@@ -1,6 +1,7 @@
 SPECIFICATION Spec
 CONSTANTS
   MaxXfers = 2
+  MaxMid = 0
   Emit = FALSE
   FixF28 <- FixOff
 INVARIANT WF
